@@ -777,7 +777,21 @@ func registerConcreteFallbacks(reg regFn) {
 
 // ---- foreign globals ---------------------------------------------------------------------
 
+func constBytes(b []byte) Value {
+	obj := &ByteObj{id: nextID(), arr: ArrConst(b), cap: I64(int64(len(b))), maxCap: uint64(len(b))}
+	return BSlice{obj: obj, off: I64(0), len: I64(int64(len(b))), cap: I64(int64(len(b)))}
+}
+
+func ip4in6(a, b, c, d byte) []byte {
+	return []byte{0, 0, 0, 0, 0, 0, 0, 0, 0, 0, 0xff, 0xff, a, b, c, d}
+}
+
 var foreignGlobals = map[string]func(in *Interp, t types.Type) Value{
+	"net.v4InV6Prefix": func(in *Interp, t types.Type) Value { return constBytes([]byte{0, 0, 0, 0, 0, 0, 0, 0, 0, 0, 0xff, 0xff}) },
+	"net.IPv4zero":     func(in *Interp, t types.Type) Value { return constBytes(ip4in6(0, 0, 0, 0)) },
+	"net.IPv4bcast":    func(in *Interp, t types.Type) Value { return constBytes(ip4in6(255, 255, 255, 255)) },
+	"net.IPv6zero":     func(in *Interp, t types.Type) Value { return constBytes(make([]byte, 16)) },
+	"net.IPv6unspecified": func(in *Interp, t types.Type) Value { return constBytes(make([]byte, 16)) },
 	"crypto/tls.supportedVersions": func(in *Interp, t types.Type) Value {
 		// var supportedVersions = []uint16{VersionTLS13, VersionTLS12, VersionTLS11, VersionTLS10}
 		vs := []uint64{0x0304, 0x0303, 0x0302, 0x0301}
